@@ -68,6 +68,21 @@ static void json_escape(FILE *f, const char *s) {
     fputc('"', f);
 }
 
+static int json_escape_buf(char *o, size_t n, const char *s) {
+    size_t k = 0;
+    if (n < 8) return 0;
+    o[k++] = '"';
+    for (; *s && k + 8 < n; s++) {
+        unsigned char c = (unsigned char)*s;
+        if (c == '"' || c == '\\') { o[k++] = '\\'; o[k++] = (char)c; }
+        else if (c < 0x20 || c >= 0x7f) k += (size_t)snprintf(o + k, n - k, "\\u%04x", c);
+        else o[k++] = (char)c;
+    }
+    o[k++] = '"';
+    o[k] = 0;
+    return (int)k;
+}
+
 static void write_case_file(const char *path, const cs_t *cs, const char *key, const char *detail, const char *desc) {
     FILE *f = fopen(path, "w");
     int i;
@@ -134,18 +149,20 @@ static void account(wstate_t *s, res_t *r, cs_t *cs, uint64_t idx, int vfd) {
             if (strcmp(s->lab[j].name, lk) == 0) before = s->lab[j].count;
         lab_add(s, lk, 1);
         if (before < 2) {
-            FILE *f = fdopen(dup(vfd), "a");
+            /* no stdio/malloc here: the library under test may have corrupted the heap */
+            static char line[24000];
+            int k = 0, j2;
             M->describe(KASE, desc, sizeof desc);
-            fprintf(f, "{\"key\":");
-            json_escape(f, r->key);
-            fprintf(f, ",\"detail\":");
-            json_escape(f, r->detail);
-            fprintf(f, ",\"case\":");
-            json_escape(f, desc);
-            fprintf(f, ",\"phase\":%d,\"idx\":%llu,\"choices\":[", CFG.phase, (unsigned long long)idx);
-            for (j = 0; j < cs->n; j++) fprintf(f, "%s%u", j ? "," : "", cs->val[j]);
-            fprintf(f, "]}\n");
-            fclose(f);
+            k += snprintf(line + k, sizeof line - (size_t)k, "{\"key\":");
+            k += json_escape_buf(line + k, sizeof line - (size_t)k, r->key);
+            k += snprintf(line + k, sizeof line - (size_t)k, ",\"detail\":");
+            k += json_escape_buf(line + k, sizeof line - (size_t)k, r->detail);
+            k += snprintf(line + k, sizeof line - (size_t)k, ",\"case\":");
+            k += json_escape_buf(line + k, sizeof line - (size_t)k, desc);
+            k += snprintf(line + k, sizeof line - (size_t)k, ",\"phase\":%d,\"idx\":%llu,\"choices\":[", CFG.phase, (unsigned long long)idx);
+            for (j2 = 0; j2 < cs->n && k < (int)sizeof line - 32; j2++) k += snprintf(line + k, sizeof line - (size_t)k, "%s%u", j2 ? "," : "", cs->val[j2]);
+            k += snprintf(line + k, sizeof line - (size_t)k, "]}\n");
+            if (write(vfd, line, (size_t)k)) {}
         }
     }
     if (r->fragile) _exit(42);
